@@ -1,8 +1,9 @@
 """C08 — the table manager's log records exactly what was played, independently of thread timing."""
 TITLE = "The table manager's log records exactly what was played"
-LEAN_TARGETS = ['BridgeVerif.Props.C08', 'BridgeVerif.Translated.ThreadsMainA', 'BridgeVerif.Translated.ThreadsMainB', 'BridgeVerif.Translated.ThreadsMainC']
-AUDIT_PROPS = ['C08', 'Translated.ThreadsMainA', 'Translated.ThreadsMainB', 'Translated.ThreadsMainC']
-REQUIRED = ['Translated.ThreadsMainC.main_deal_translated_dict', 'Translated.ThreadsMainC.main_board_translated', 'Translated.ThreadsMainC.main_boards_translated', 'Translated.ThreadsMainC.main_run_translated', 
+LEAN_TARGETS = ['BridgeVerif.Props.C08', 'BridgeVerif.Translated.ThreadsMainA', 'BridgeVerif.Translated.ThreadsMainB', 'BridgeVerif.Translated.ThreadsMainC', 'BridgeVerif.Translated.ThreadsMainD']
+AUDIT_PROPS = ['C08', 'Translated.ThreadsMainA', 'Translated.ThreadsMainB', 'Translated.ThreadsMainC', 'Translated.ThreadsMainD']
+REQUIRED = ['Translated.ThreadsMainD.translated_main_thread_is_session_program', 'Translated.ThreadsMainD.translated_main_thread_writes_the_session_log', 'Translated.ThreadsMainD.session_boards_parse', 'Translated.ThreadsMainD.translated_main_thread_is_session_program_protocol', 
+            'Translated.ThreadsMainC.main_deal_translated_dict', 'Translated.ThreadsMainC.main_board_translated', 'Translated.ThreadsMainC.main_boards_translated', 'Translated.ThreadsMainC.main_run_translated', 
             'Translated.ThreadsMainB.main_trick_card_translated', 'Translated.ThreadsMainB.main_trick_translated', 'Translated.ThreadsMainB.main_playing_translated', 
             'log_is_session_spec', 'log_independent_of_schedule', 'scores_are_opposite', 'passed_out_record_shape',
             'deal_logged_is_original', 'record_follows_rules', 'main_thread_follows_the_messages',
